@@ -218,15 +218,23 @@ def new_parser_state(cm: ClassModel, text: str, pos: int, parser: Any, where: st
 
 
 def install_re(cm: ClassModel) -> None:
-    """The standard library's `re` as an oracle on the model: re.compile returns a model Pattern that records
-    pattern and flags and answers match / fullmatch / search through the real engine; module-level
-    ``RE_X = re.compile(...)`` constants of the modelled files are rebuilt through it."""
-    import re  # noqa: PLC0415
+    """The repository's regular-expression engine as an oracle on the model (sa/rxoracle.py): `re` in the model
+    carries the engine's own flag values, re.compile returns a model Pattern that records pattern and flags and
+    answers match / fullmatch / search through the engine; module-level ``RE_X = re.compile(...)`` constants of
+    the modelled files are rebuilt through it."""
+    from . import rxoracle  # noqa: PLC0415
+
+    want = rxoracle.module_engine(cm.repo, cm.rels)
+    if want != rxoracle.ENGINE:
+        raise AnalysisError(f"{cm.where}: the modelled files compile their patterns with `{want}`, which is not importable here; the stand-in engine may fold case differently")
+    restub = cm.env.get("re")
+    if isinstance(restub, Obj):
+        restub.__dict__.update(rxoracle.FLAGS)
 
     def compile_(_s: Obj, pat: str, flags: int = 0) -> Obj:
         try:
-            rx = re.compile(pat, flags & (re.I | re.A | re.M | re.S | re.X))
-        except re.error as err:
+            rx = rxoracle.compile_(pat, flags)
+        except rxoracle.error as err:
             raise ModelRaise(f"regex.error: {err}") from err
         o = Obj("Pattern", pattern=pat, flags=flags)
 
@@ -242,7 +250,7 @@ def install_re(cm: ClassModel) -> None:
         return o
 
     cm._cache[("re", "compile")] = compile_  # noqa: SLF001
-    cm._cache[("re", "escape")] = lambda _s, x: re.escape(x)  # noqa: SLF001
+    cm._cache[("re", "escape")] = lambda _s, x: rxoracle.escape(x)  # noqa: SLF001
     for r in cm.rels:
         for n in cm.repo.mod(r).tree.body:
             if isinstance(n, ast.Assign) and isinstance(n.targets[0], ast.Name) and isinstance(n.value, ast.Call) and ast.unparse(n.value.func) in ("re.compile", "regex.compile"):
